@@ -262,6 +262,47 @@ def check_sampled_is_recorded(p, report, funcs, facts):
                             "returned utilities: the chosen sample can have zero mass in its row")
 
 
+def check_minmax_offsets(p, report, funcs, rule):
+    EXT_MAX = ("max", "nanmax", "amax")
+    EXT_MIN = ("min", "nanmin", "amin")
+
+    def ext(e, which):
+        return isinstance(e, ast.Call) and (c01.callname(e) or "").split(".")[-1] in which
+
+    def span(e):
+        """x if e is max(x) - min(x) over the same operand"""
+        if isinstance(e, ast.BinOp) and isinstance(e.op, ast.Sub) and ext(e.left, EXT_MAX) and ext(e.right, EXT_MIN):
+            def opnd(c):
+                if c.args:
+                    return ast.unparse(c.args[0])
+                return ast.unparse(c.func.value) if isinstance(c.func, ast.Attribute) else None
+            if opnd(e.left) == opnd(e.right):
+                return opnd(e.left)
+        return None
+
+    n = 0
+    for f in funcs:
+        for node in ast.walk(f.node):
+            if not (isinstance(node, ast.BinOp) and isinstance(node.op, ast.Div)):
+                continue
+            d = node.right
+            bare = span(d)
+            offset = None
+            if isinstance(d, ast.BinOp) and isinstance(d.op, ast.Add):
+                for a, b in ((d.left, d.right), (d.right, d.left)):
+                    if span(a) is not None and isinstance(b, ast.Constant) and isinstance(b.value, (int, float)) and b.value > 0:
+                        offset = span(a)
+            if bare is None and offset is None:
+                continue
+            n += 1
+            report.add(rule, f.qual, f"min-max normalisation `{norm_stmt(node, 60)}` cannot be 0/0", f"{f.file}:{node.lineno}",
+                       offset is not None,
+                       detail="denominator offset by a positive constant" if offset is not None else
+                       f"`{ast.unparse(d)[:60]}` is 0 whenever `{bare}` is constant (e.g. duplicated candidates): the component, and "
+                       f"with it the whole utility row, is NaN; rand_argmax over an all-NaN row returns position 0 again and again")
+    return n
+
+
 def run(p, report, tier):
     report.rule("R2.1", "within one iteration of a selection loop the NaN mask of the current pick is applied only "
                 "after the returned row was snapshotted (or to an array that is not returned), and masks of earlier "
@@ -301,6 +342,21 @@ def run(p, report, tier):
                 "result of check_indices is the array that is used (shared with C01 R1.1)", floor=4)
     c01.check_clip(p, c01.Report_proxy(report, {"R1.1": "R2.6"}))
     c01.check_indices_results(p, report, "R2.6")
+    report.rule("R2.7", "a min-max normalisation of a utility component cannot produce 0/0: the denominator "
+                "`max(x) - min(x)` carries a positive additive constant (as its siblings in the same strategies do); a "
+                "bare one is NaN for every candidate set whose component is constant (duplicated candidates), and the "
+                "winner of an all-NaN row carries no number", floor=2)
+    check_minmax_offsets(p, report, funcs, "R2.7")
+    report.rule("R2.8", "the wrapper strategies hand on the rows of the wrapped strategy with their NaN marks: columns are "
+                "copied whole, every return goes through the scatter into the NaN-filled array and simple_batch, -inf is "
+                "written before the subset's utilities (shared with C20 R20.1 / R20.2)", floor=20)
+    from ..common import Report as _Report
+    from . import c20 as _c20
+    sub20 = _Report("C20")
+    _c20.run(p, sub20, "quick")
+    for o in sub20.obligations:
+        if o.rule in ("R20.1", "R20.2"):
+            report.add("R2.8", o.entity, o.construct, o.loc, o.ok, detail=o.detail)
     report.assumptions += [
         "statement order inside a loop body is judged by structural dominance (no goto)",
         "the numerical arg-max relation itself is the contract of rand_argmax (decided structurally by R2.5 / C18)",
